@@ -100,10 +100,12 @@ def run(ctx):
              'break_triggered is not "ERROR and break-on"', ctx.loc(f))
     scs = [n for n in own_nodes(f.node) if isinstance(n, ast.Assign) and
            dotted(n.targets[0]) == 'stop_continue_flag']
-    txt = ' | '.join(norm(n.value, 300) for n in scs)
-    r1.check(len(scs) == 2 and 'states.SUCCESS' in txt and
-             'not self._continue_on_clause' in txt and
-             'not continue_on_evaluation' in txt,
+    okc = len(scs) == 2 and any(
+        U.phas(n.value, '___ == states.SUCCESS and '
+               'not self._continue_on_clause') for n in scs) and any(
+        U.phas(n.value, '__f or (self._continue_on_clause and '
+               'not continue_on_evaluation)') for n in scs)
+    r1.check(okc,
              ctx.construct(f, extra='continue-on'),
              'stop flag is not "(SUCCESS and no continue-on) or (continue-on '
              'false)"', ctx.loc(f))
@@ -279,9 +281,15 @@ def run(ctx):
              'factories cover %s, language has %s'
              % (sorted(getters), sorted(pkeys)), ctx.loc(facs))
     cl = prog.func(POL + '.construct_policies_list')
-    txt = ' '.join(ast.unparse(cl.node).split())
-    r4.check('if wf_policies and (not policy)' in txt and
-             'factory(wf_policies)' in txt,
+    clcfg = ctx.cfg(cl)
+    okfb = False
+    for n, c in clcfg.calls(lambda c: U.phas(c, '__f(wf_policies)')):
+        g = [(norm(t), pol) for (t, pol, _g) in clcfg.guards(n)
+             if isinstance(t, ast.expr)]
+        okfb = okfb or any(pol and U.phas(ast.parse(t),
+                                          'wf_policies and not policy')
+                           for t, pol in g)
+    r4.check(okfb,
              ctx.construct(cl, extra='task-defaults fallback'),
              'task-defaults policies are not used as a fall-back', ctx.loc(cl))
 
